@@ -177,7 +177,8 @@ func mutantMain(args []string) int {
 		if fs := enclosingFuncs(path, orig, ov[path]); len(fs) > 0 {
 			var alts []string
 			for _, f := range fs {
-				alts = append(alts, regexp.QuoteMeta(f))
+				// the function itself and the closures declared inside it (name$1, name$2 ...)
+				alts = append(alts, regexp.QuoteMeta(f)+`(\$\d+)*`)
 			}
 			// package-wide scans (directives) always run; a mutated function that is not under this
 			// property's contracts contributes nothing, as in the real check
